@@ -113,6 +113,11 @@ def evaluate(f, t, env=None, self_local=None, depth=0):
         for key, vs in env.items():
             if isinstance(key, tuple) and len(key) == 2 and key[0] == "call" and is_call(t, key[1]):
                 return set(vs)
+        # `u8::from(flag)` / `flag.into()` on a boolean: 0 or 1
+        if t[4] in ("core::convert::From::from", "core::convert::Into::into") and len(t[3]) == 1:
+            v = evaluate(f, t[3][0], env, self_local, depth + 1)
+            if v is not None and v <= {0, 1}:
+                return v
     if k == "discr":
         inner = peel(t[1])
         if inner[0] in ("param", "call"):
@@ -217,7 +222,7 @@ def _plain_eq(f, x):
     return False
 
 
-def evaluate_fn(f, body, env, max_paths=2000):
+def evaluate_fn(f, body, env, max_paths=2000, at=None):
     """value set of what `body` returns, path by path: a test whose subject has a single value under `env` is followed
     along that edge only, and the returned expression is folded per path (one reading for `flags |= BIT` under an `if`,
     `if c { A | B } else { A }`, `A | ((c as u8) << 3)` and a `match`)"""
@@ -243,12 +248,20 @@ def evaluate_fn(f, body, env, max_paths=2000):
 
     out = set()
     n = 0
-    for lf in paths.explore(body, 0, lambda t: False, lambda b, x: False, switch_hook=hook, max_paths=max_paths):
+    # at=(block, local): the value of that local where the paths reach that block (an argument of a call there) instead of
+    # the returned value
+    stop = (lambda b, x: x == at[0]) if at is not None else None
+    for lf in paths.explore(body, 0, lambda t: False, lambda b, x: False, switch_hook=hook, max_paths=max_paths, stop_pred=stop):
         if lf["kind"] == "limit":
             return None
-        if lf["kind"] != "return":
+        if at is not None:
+            if lf["kind"] != "stop":
+                continue
+            v = paths.value_on_path(body, lf["path"], at[1])
+        elif lf["kind"] != "return":
             continue
-        v = paths.value_on_path(body, lf["path"], 0)
+        else:
+            v = paths.value_on_path(body, lf["path"], 0)
         if v is None:
             return None
         vs = evaluate(f, v, env)
